@@ -5,13 +5,18 @@ Outbound world: the real `Outbound` (and real `PullToPush`, real `twisted Cooper
   * pull producers stepped by a fake Cooperator whose scheduling is chosen by the case,
   * a scripted connection: `send_record(r)` of a "pauser" record calls `Outbound.pauseProducing()`
     synchronously (the TCP buffer filled up), and the case calls pause/resume itself.
-Inbound world: the real `Inbound` with real `DilatedConnectionProtocol` objects as connections, each
-  on a recording TCP transport.
+Inbound world: a real `Manager` (its real `Inbound`/`Outbound`), real `SubChannel` objects (pause/resume/stop
+  through `SubChannel.pauseProducing()` & co, open through `Manager.subchannel_local_open`, close through
+  `Manager.subchannel_closed`), real `DilatedConnectionProtocol` objects as connections, each on a recording TCP
+  transport.  The oracle judges the TCP pause state against the subchannels that are NOT closed and have an
+  outstanding pause request; "only closed subchannels still hold the pause" (what the current code does, Lean:
+  `inbound_open_exact_fails_on_current`) is recorded as `obs:closed-subchannel-holds-pause`, see STRICT_CLOSED_PAUSE.
 
 Operation tokens (shared with the Lean driver):
   w0 w1 (queue_and_send_record, w1 = the transport answers with pauseProducing) | P R S (transport calls
   pause/resume/stopProducing) | r:<sc>:<p>:<1|0> (registerProducer push|pull) | u:<sc> | c:<sc> (subchannel_closed)
   | U D (use_connection / stop_using_connection) | pl:<p> (one Cooperator work unit of adapter p)
+Inbound tokens: use | stop | p <sc> | r <sc> | s <sc> | o <sc> (subchannel_local_open) | c <sc> (subchannel_closed)
 """
 import itertools
 
@@ -22,8 +27,10 @@ from twisted.internet.task import CooperativeTask, Clock
 from wormhole._dilation.outbound import Outbound, PullToPush
 from wormhole._dilation.inbound import Inbound
 from wormhole._dilation.connection import DilatedConnectionProtocol
+from wormhole._dilation.manager import Manager
+from wormhole._dilation.subchannel import SubChannel, SubchannelAddress, _WormholeAddress
 from wormhole._dilation.roles import LEADER
-from wormhole._interfaces import IDilationManager, IDilationConnector
+from wormhole._interfaces import IDilationManager, IDilationConnector, ISend
 from wormhole.eventual import EventualQueue
 
 from ..core import Result
@@ -41,8 +48,9 @@ TRUSTED = [
 ]
 RULE = ("hand-picked re-entrancy corpus, random op sequences with random turn scripts (push+pull producers, reconnects, "
         "producer-object reuse, out-of-environment calls), small-scope exhaustive sequences (<=3 producers; <=3 ops quick, "
-        "<=4 over a 17-symbol alphabet and <=6 over a 7-symbol alphabet thorough), Inbound random + exhaustive (<=5/<=7 ops "
-        "over 2 subchannels); non-trivial = at least one producer/transport call observed; distinct = distinct canonical traces")
+        "<=4 over a 17-symbol alphabet and <=6 over a 7-symbol alphabet thorough), Inbound (real Manager/SubChannel/"
+        "DilatedConnectionProtocol) random + exhaustive: <=5/<=7 ops over 2 subchannels, and with subchannel open/close "
+        "(3 open subchannels then <=4/<=5 ops over 10 symbols; open/close inside the sequence <=4/<=6 over 9 symbols); non-trivial = at least one producer/transport call observed; distinct = distinct canonical traces")
 
 
 class Rec:
@@ -406,10 +414,25 @@ class RecTCP:
         self.log.append("tr%d" % self.g)
 
 
+@implementer(ISend)
+class FakeSend:
+    def send(self, phase, body):
+        pass
+
+
+# set to True to make "a subchannel closed while it holds a pause keeps the connection paused for ever" (the
+# behaviour of the current code, `inbound_open_exact_fails_on_current`) an oracle violation instead of an observation
+STRICT_CLOSED_PAUSE = False
+
+
 def run_in(case):
-    m = FakeManager()
-    i = Inbound(m, "host")
-    eq = EventualQueue(Clock())
+    """Real Manager (its real Inbound and Outbound), real SubChannel objects (one per scid), real
+    DilatedConnectionProtocol connections on recording TCP transports.  pause/resume/stop go through
+    SubChannel.pauseProducing() & co, close through Manager.subchannel_closed()."""
+    clock = Clock()
+    eq = EventualQueue(clock)
+    m = Manager(FakeSend(), "side", None, clock, eq, None, ["1"], 30.0, None)
+    i = m._inbound
 
     class Conn:
         pass
@@ -419,7 +442,16 @@ def run_in(case):
     gen = 0
     cur = None
     tcp_paused = {}
-    ref = set()          # subchannels with an outstanding pause request (the oracle's own bookkeeping)
+    scs = {}
+
+    def sc_of(n):
+        if n not in scs:
+            scs[n] = SubChannel(n, m, _WormholeAddress(), SubchannelAddress("proto"))
+        return scs[n]
+    # the oracle's own bookkeeping (never read from Inbound)
+    asked = set()        # subchannels with an outstanding pause request
+    is_open = set()
+    closed = set()       # closed subchannels: their application no longer counts
     lines, exp, viol, tags = [], [], [], set()
     for tok in case["ops"]:
         f = tok.split()
@@ -437,18 +469,37 @@ def run_in(case):
                 cur = None
                 i.stop_using_connection()
             elif f[0] == "p":
-                ref.add(int(f[1]))
-                i.subchannel_pauseProducing(int(f[1]))
+                asked.add(int(f[1]))
+                sc_of(int(f[1])).pauseProducing()
             elif f[0] == "r":
-                ref.discard(int(f[1]))
-                i.subchannel_resumeProducing(int(f[1]))
+                asked.discard(int(f[1]))
+                sc_of(int(f[1])).resumeProducing()
             elif f[0] == "s":
-                ref.discard(int(f[1]))
-                i.subchannel_stopProducing(int(f[1]))
+                asked.discard(int(f[1]))
+                sc_of(int(f[1])).stopProducing()
+            elif f[0] == "o":
+                n = int(f[1])
+                m.subchannel_local_open(n, sc_of(n))
+                is_open.add(n)
+                closed.discard(n)
+            elif f[0] == "c":
+                n = int(f[1])
+                was_open = n in is_open
+                paused_now = len(asked & is_open)
+                if was_open:
+                    is_open.discard(n)
+                    closed.add(n)
+                    tags.add("close:%s/%d-open-paused/%s" % ("paused" if n in asked else "unpaused", min(paused_now, 3),
+                                                            "conn%d" % min(gen, 2) if cur else "noconn"))
+                m.subchannel_closed(n, sc_of(n))
         except Exception as e:
             exc = type(e).__name__
-            viol.append(("inbound-pause-not-forwarded" if "Producing" in str(e) else "inbound-internal-exception",
-                         f"{tok}: {exc}: {e}"))
+            expected = (f[0] == "o" and exc == "AssertionError") or (f[0] == "c" and exc == "KeyError" and not was_open)
+            if expected:
+                tags.add("exc:" + f[0])
+            else:
+                viol.append(("inbound-pause-not-forwarded" if "Producing" in str(e) else "inbound-internal-exception",
+                             f"{tok}: {exc}: {e}"))
         for e in log[n0:]:
             g = int(e[2:])
             want = e[1] == "p"
@@ -456,12 +507,33 @@ def run_in(case):
                 viol.append(("inbound-double-signal", f"TCP transport of connection {g} told {e} twice in a row"))
             tcp_paused[g] = want
             tags.add("tcp:" + e[:2])
-        if cur is not None and tcp_paused[cur] != bool(ref):
-            viol.append(("inbound-pause-not-forwarded" if exc else "inbound-pause-inexact",
-                         f"after {tok}: subchannels asking for a pause = {sorted(ref)}, TCP transport of the current connection paused = {tcp_paused[cur]}"))
+        # the property: judged against the subchannels that are not closed and have asked for a pause
+        want = asked - closed
+        stale = asked & closed
+        if cur is not None:
+            if want and not tcp_paused[cur]:
+                if closed:
+                    viol.append(("inbound-open-subchannel-pause-lost",
+                                 f"after {tok}: inbound reads are running although open subchannel(s) {sorted(want)} asked for a pause "
+                                 f"and never resumed (closed so far: {sorted(closed)})"))
+                else:
+                    viol.append(("inbound-pause-not-forwarded" if exc else "inbound-pause-inexact",
+                                 f"after {tok}: subchannels asking for a pause = {sorted(want)}, TCP transport of the current connection paused = False"))
+            elif not want and tcp_paused[cur]:
+                if stale:
+                    # the current code: a subchannel closed while paused holds the pause for ever
+                    tags.add("obs:closed-subchannel-holds-pause")
+                    if STRICT_CLOSED_PAUSE:
+                        viol.append(("inbound-closed-subchannel-holds-pause",
+                                     f"after {tok}: only closed subchannel(s) {sorted(stale)} hold a pause, the connection stays paused"))
+                else:
+                    viol.append(("inbound-pause-inexact",
+                                 f"after {tok}: nobody asks for a pause, TCP transport of the current connection paused = True"))
         lines.append("i " + tok)
-        exp.append((",".join(log[n0:]) or "-") + (" !" + exc if exc else "") + " | "
-                   + "paused=" + ",".join(str(x) for x in sorted(i._paused_subchannels))
+        evs = log[n0:] + (["!" + exc] if exc else [])
+        exp.append((",".join(evs) or "-") + " | "
+                   + "paused=" + ",".join(str(x) for x in sorted(sc._scid for sc in i._paused_subchannels))
+                   + " open=" + ",".join(str(x) for x in sorted(i._open_subchannels))
                    + " conn=" + (str(cur) if i._connection is not None else "-"))
         tags.add("iop:" + f[0])
     seen, v2 = set(), []
@@ -593,30 +665,69 @@ def exhaustive_out(alpha, depth, setup):
 
 
 IN_ALPHA = ["use", "stop", "p 1", "p 2", "r 1", "r 2", "s 1"]
+# with subchannel open/close: three subchannels, opened by the prefix or by the sequence itself
+IN_OPEN3 = ["o 1", "o 2", "o 3"]
+IN_ALPHA_C = ["use", "stop", "p 1", "p 2", "p 3", "r 1", "s 2", "c 1", "c 2", "c 3"]
+IN_ALPHA_OC = ["use", "stop", "p 1", "p 2", "r 2", "o 1", "o 2", "c 1", "c 2"]
+
+IN_CORPUS = [
+    ["p 1", "use", "p 2", "r 1", "r 2", "p 1", "stop", "use", "s 1", "r 1", "p 1", "p 1", "stop", "r 1", "use"],
+    # two applications paused, one of them closed: the other one keeps the pause, also on the next connection
+    ["use", "o 1", "o 2", "p 1", "p 2", "c 1", "p 2", "stop", "use", "r 2"],
+    ["o 1", "o 2", "o 3", "p 1", "p 2", "p 3", "use", "c 2", "c 3", "stop", "use", "r 1"],
+    ["use", "o 1", "o 2", "o 3", "p 1", "p 2", "p 3", "stop", "use", "c 1", "c 2", "r 3"],
+    # closing an unpaused subchannel, closing twice, re-opening
+    ["use", "o 1", "o 2", "p 2", "c 1", "c 1", "o 1", "o 1", "r 2", "c 2"],
+    # the current code: the only paused subchannel is closed, the pause stays (witness of inbound_open_exact_fails_on_current)
+    ["use", "o 1", "p 1", "c 1", "stop", "use"],
+]
+
+
+def rand_in_case(rng):
+    ops = []
+    alpha = ["use", "stop"] + ["%s %d" % (k, n) for k in "prsoc" for n in (1, 2, 3)]
+    if rng.random() < 0.6:
+        ops += IN_OPEN3[:rng.randrange(1, 4)]
+    for _ in range(rng.randrange(1, 14)):
+        r = rng.random()
+        if r < 0.35:
+            ops.append("p %d" % rng.randrange(1, 4))
+        elif r < 0.5:
+            ops.append("c %d" % rng.randrange(1, 4))
+        else:
+            ops.append(rng.choice(alpha))
+    return dict(kind="in", ops=ops)
+
+
+def exhaustive_in(alpha, depth, prefix=(), first=None):
+    for d in range(1, depth + 1):
+        for seq in itertools.product(alpha, repeat=d):
+            if first is not None and d == depth and seq[0] not in first:
+                continue
+            yield dict(kind="in", ops=list(prefix) + list(seq))
 
 
 def cases(rng, tier):
     out = [dict(kind="out", ops=c) for c in CORPUS]
-    out.append(dict(kind="in", ops=["p 1", "use", "p 2", "r 1", "r 2", "p 1", "stop", "use", "s 1", "r 1", "p 1", "p 1", "stop", "r 1", "use"]))
+    out.extend(dict(kind="in", ops=c) for c in IN_CORPUS)
     thorough = tier == "thorough"
     n = 6000 if thorough else 300
     for k in range(n):
         out.append(rand_out_case(rng, adversarial=(k % 5 == 4)))
-    for k in range(2000 if thorough else 100):
-        out.append(dict(kind="in", ops=[rng.choice(IN_ALPHA) for _ in range(rng.randrange(1, 12))]))
+    for k in range(4000 if thorough else 300):
+        out.append(rand_in_case(rng))
     if thorough:
         out.extend(exhaustive_out(ALPHA_BIG, 4, SETUP3))
         out.extend(exhaustive_out(ALPHA_SMALL, 6, SETUP3[:2]))
-        for d in range(1, 8):
-            for seq in itertools.product(IN_ALPHA, repeat=d):
-                if d < 7 or seq[0] in ("use", "p 1"):
-                    out.append(dict(kind="in", ops=list(seq)))
+        out.extend(exhaustive_in(IN_ALPHA, 7, first=("use", "p 1")))
+        out.extend(exhaustive_in(IN_ALPHA_C, 5, prefix=IN_OPEN3))
+        out.extend(exhaustive_in(IN_ALPHA_OC, 6, first=("use", "o 1", "p 1")))
     else:
         out.extend(exhaustive_out(ALPHA_BIG, 2, SETUP3))
         out.extend(exhaustive_out(ALPHA_SMALL, 3, SETUP3[:2]))
-        for d in range(1, 6):
-            for seq in itertools.product(IN_ALPHA, repeat=d):
-                out.append(dict(kind="in", ops=list(seq)))
+        out.extend(exhaustive_in(IN_ALPHA, 5))
+        out.extend(exhaustive_in(IN_ALPHA_C, 4, prefix=IN_OPEN3))
+        out.extend(exhaustive_in(IN_ALPHA_OC, 4))
     return out
 
 
@@ -632,7 +743,7 @@ def search(rng, seconds, seeds):
     while time.time() - t0 < seconds:
         c = rand_out_case(rng)
         yield c, run_case(c)
-        c = dict(kind="in", ops=[rng.choice(IN_ALPHA) for _ in range(rng.randrange(1, 12))])
+        c = rand_in_case(rng)
         yield c, run_case(c)
 
 
